@@ -46,9 +46,15 @@ func (c *Client) actor() string {
 	return c.S.CurActor
 }
 
-func (c *Client) begin(verb string, key Key) (*Call, Fault) {
+func (c *Client) begin(verb string, key Key) *Call {
 	s := c.S
-	call := &Call{Seq: len(s.Trace) + 1, Pass: s.CurPass, Actor: c.actor(), Source: c.Source, Verb: verb, Key: key}
+	return &Call{Seq: len(s.Trace) + 1, Pass: s.CurPass, Actor: c.actor(), Source: c.Source, Verb: verb, Key: key}
+}
+
+// fire numbers the call within its pass and consults the fault/injection hook. It is called
+// after the request fields (dry run, patch type, ...) are filled in.
+func (c *Client) fire(call *Call) Fault {
+	s := c.S
 	fault := FaultNone
 	if s.CurPass != 0 && c.Actor == "" {
 		s.nCall++
@@ -64,7 +70,7 @@ func (c *Client) begin(verb string, key Key) (*Call, Fault) {
 			call.Seq = len(s.Trace) + 1
 		}
 	}
-	return call, fault
+	return fault
 }
 
 func (c *Client) record(call *Call) {
@@ -142,8 +148,9 @@ func (c *Client) Get(_ context.Context, key client.ObjectKey, obj client.Object,
 	if k.Kind == "" {
 		k = Key{Group: gvk.Group, Kind: gvk.Kind, Namespace: key.Namespace, Name: key.Name}
 	}
-	call, fault := c.begin("get", k)
+	call := c.begin("get", k)
 	defer c.record(call)
+	fault := c.fire(call)
 	switch fault {
 	case FaultCrash, FaultCrashAfter:
 		call.Err = "crash"
@@ -178,8 +185,9 @@ func (c *Client) List(_ context.Context, list client.ObjectList, opts ...client.
 	gvk.Kind = strings.TrimSuffix(gvk.Kind, "List")
 	lo := client.ListOptions{}
 	lo.ApplyOptions(opts)
-	call, fault := c.begin("list", Key{Group: gvk.Group, Kind: gvk.Kind, Namespace: lo.Namespace})
+	call := c.begin("list", Key{Group: gvk.Group, Kind: gvk.Kind, Namespace: lo.Namespace})
 	defer c.record(call)
+	fault := c.fire(call)
 	switch fault {
 	case FaultCrash, FaultCrashAfter:
 		call.Err = "crash"
@@ -289,11 +297,12 @@ func (c *Client) Create(_ context.Context, obj client.Object, opts ...client.Cre
 	if k.Kind == "" {
 		k = Key{Group: gvk.Group, Kind: gvk.Kind, Namespace: obj.GetNamespace(), Name: obj.GetName()}
 	}
-	call, fault := c.begin("create", k)
+	call := c.begin("create", k)
 	defer c.record(call)
 	call.DryRun = len(co.DryRun) > 0
 	call.Body = m
 	call.Manager = c.manager(co.FieldManager)
+	fault := c.fire(call)
 	if err := c.preFault(call, fault); err != nil {
 		return err
 	}
@@ -320,11 +329,12 @@ func (c *Client) update(obj client.Object, status, dryRun bool, fm string) error
 	if status {
 		verb = "update-status"
 	}
-	call, fault := c.begin(verb, k)
+	call := c.begin(verb, k)
 	defer c.record(call)
 	call.DryRun = dryRun
 	call.Body = m
 	call.Manager = c.manager(fm)
+	fault := c.fire(call)
 	if err := c.preFault(call, fault); err != nil {
 		return err
 	}
@@ -371,7 +381,7 @@ func (c *Client) patch(obj client.Object, patch client.Patch, status bool, po cl
 	if status {
 		verb = "patch-status"
 	}
-	call, fault := c.begin(verb, k)
+	call := c.begin(verb, k)
 	defer c.record(call)
 	call.DryRun = len(po.DryRun) > 0
 	call.PatchType = pt
@@ -382,6 +392,7 @@ func (c *Client) patch(obj client.Object, patch client.Patch, status bool, po cl
 	} else {
 		call.Manager = c.manager(po.FieldManager)
 	}
+	fault := c.fire(call)
 	if err := c.preFault(call, fault); err != nil {
 		return err
 	}
@@ -404,7 +415,7 @@ func (c *Client) Delete(_ context.Context, obj client.Object, opts ...client.Del
 	if k.Kind == "" {
 		k = Key{Group: gvk.Group, Kind: gvk.Kind, Namespace: obj.GetNamespace(), Name: obj.GetName()}
 	}
-	call, fault := c.begin("delete", k)
+	call := c.begin("delete", k)
 	defer c.record(call)
 	call.DryRun = len(do.DryRun) > 0
 	if do.Preconditions != nil {
@@ -420,6 +431,7 @@ func (c *Client) Delete(_ context.Context, obj client.Object, opts ...client.Del
 	if do.PropagationPolicy != nil {
 		call.Propagation = string(*do.PropagationPolicy)
 	}
+	fault := c.fire(call)
 	if err := c.preFault(call, fault); err != nil {
 		return err
 	}
